@@ -457,36 +457,46 @@ pub fn run(ctx: &Ctx) {
         let dir = w.wd.path.join("existing");
         let _ = std::fs::create_dir_all(&dir);
         std::fs::write(dir.join("kr.txt"), &kr_ab).unwrap();
-        let small = b"short message".to_vec();
+        for (pt_name, small) in [("short", b"short message".to_vec()), ("empty", Vec::new())] {
         std::fs::write(dir.join("small.txt"), &small).unwrap();
         let fsmall = refspec::encode_key_file(&a.sk, &a.pk, &b.pk, &rng.arr32(), &rng.arr32(), &small, &[small.len()]).unwrap();
         std::fs::write(dir.join("small.ktl"), &fsmall).unwrap();
         let psmall = refspec::encode_pass_file(b"pp", &rng.arr32(), &small, &[small.len()]);
         std::fs::write(dir.join("psmall.ktl"), &psmall).unwrap();
         for (prior_name, prior) in [("longer existing file", rng.bytes(200_000)), ("shorter existing file", vec![7u8; 3]), ("empty existing file", vec![])] {
-            for (what, args, pw) in [
-                ("decrypt", vec!["decrypt", "small.ktl", "-t", b.name.as_str(), "-o", "OUT", "-k", "kr.txt", "--env-pass"], b.password.as_str()),
-                ("encrypt", vec!["encrypt", "small.txt", "-t", b.name.as_str(), "-f", a.name.as_str(), "-o", "OUT", "-k", "kr.txt", "--env-pass"], a.password.as_str()),
-                ("password decrypt", vec!["password", "decrypt", "psmall.ktl", "-o", "OUT", "--env-pass"], "pp"),
-                ("password encrypt", vec!["password", "encrypt", "small.txt", "-o", "OUT", "--env-pass"], "pp"),
+            // the input reaches the tool as a FILE argument, on bare stdin, or as the path /dev/stdin
+            for input_wiring in ["file", "stdin", "/dev/stdin"] {
+            for (what, infile, args, pw) in [
+                ("decrypt", "small.ktl", vec!["decrypt", "INPUT", "-t", b.name.as_str(), "-o", "OUT", "-k", "kr.txt", "--env-pass"], b.password.as_str()),
+                ("encrypt", "small.txt", vec!["encrypt", "INPUT", "-t", b.name.as_str(), "-f", a.name.as_str(), "-o", "OUT", "-k", "kr.txt", "--env-pass"], a.password.as_str()),
+                ("password decrypt", "psmall.ktl", vec!["password", "decrypt", "INPUT", "-o", "OUT", "--env-pass"], "pp"),
+                ("password encrypt", "small.txt", vec!["password", "encrypt", "INPUT", "-o", "OUT", "--env-pass"], "pp"),
             ] {
                 std::fs::write(dir.join("OUT"), &prior).unwrap();
-                let o = Cmd::new(&dir, &args).pass(pw).run();
+                let args: Vec<&str> = args.iter().filter_map(|x| match (*x, input_wiring) { ("INPUT", "file") => Some(infile), ("INPUT", "stdin") => None, ("INPUT", _) => Some("/dev/stdin"), (y, _) => Some(y) }).collect();
+                let mut c = Cmd::new(&dir, &args).pass(pw);
+                if input_wiring != "file" {
+                    c = c.stdin(Stdin::Bytes(std::fs::read(dir.join(infile)).unwrap_or_default()));
+                }
+                let what = &if input_wiring == "file" { what.to_string() } else { format!("{} (input on {})", what, input_wiring) };
+                let o = c.run();
                 let out = std::fs::read(dir.join("OUT")).unwrap_or_default();
                 ctx.eval();
                 let good = o.exit == Exit::Code(0)
-                    && match what {
+                    && match what.split(" (").next().unwrap_or("") {
                         "decrypt" | "password decrypt" => out == small,
                         "encrypt" => matches!(refspec::decode_key_file(&out, &b.sk, &b.pk), Ok(d) if d.body.complete() && d.body.plaintext() == small) && out.len() == 132 + 32 + small.len(),
                         _ => matches!(refspec::decode_pass_file(&out, b"pp"), Ok(d) if d.body.complete() && d.body.plaintext() == small) && out.len() == 36 + 32 + small.len(),
                     };
                 if good {
                     ctx.seen("successful run onto an existing output path: exactly the result");
-                    ctx.distinct(&format!("existing|{}|{}", what, prior_name));
+                    ctx.distinct(&format!("existing|{}|{}|{}", what, prior_name, pt_name));
                 } else {
-                    ctx.violation(&format!("C12:{}:exit-0-but-output-path-does-not-hold-exactly-the-result:{}", what.replace(' ', "-"), prior_name.replace(' ', "-")), json!({"command": what, "prior_state": prior_name, "exit": o.exit.describe(), "stderr": o.stderr_s(), "output_len": out.len(), "expected_plaintext_len": small.len()}));
+                    ctx.violation(&format!("C12:{}:exit-0-but-output-path-does-not-hold-exactly-the-result:{}", what.split(" (").next().unwrap_or("").replace(' ', "-"), prior_name.replace(' ', "-")), json!({"command": what, "plaintext": pt_name, "prior_state": prior_name, "exit": o.exit.describe(), "stderr": o.stderr_s(), "output_len": out.len(), "expected_plaintext_len": small.len()}));
                 }
             }
+            }
+        }
         }
     }
     // sources and sinks of other file types: symlinked input, FIFO as -o, /dev/stdout as -o, /dev/stdin as FILE
